@@ -173,6 +173,10 @@ pub fn corpus(out: &mut Out, prop: &str) {
         sc(0, true, Command::Keys("\\a".into())),
         sc(0, true, Command::Keys("a\\*".into())),
         sc(0, true, Command::Keys("[a\\-c]".into())),
+        // a 300-byte class body, unclosed and closed (the model's matcher must stay linear in it)
+        sc(0, true, Command::Keys(format!("[{}", "xyz0-9q-m".repeat(34)))),
+        sc(0, true, Command::Keys(format!("[{}a-c]*", "xyz0-9q-m".repeat(34)))),
+        sc(0, true, Command::Keys(format!("[^{}", "xyz0-9\\]".repeat(40)))),
     ]);
     run_scripted(out, prop, "bitmaps", vec![
         sc(0, true, Command::SetBit(k("bm"), 7, 1)),
@@ -244,11 +248,141 @@ pub fn epoch_corpus(out: &mut Out, prop: &str) {
     }
 }
 
+/// SCAN paging (`execute_scan`): the transcription `Model.ExecutorScan.cScan` answers every call
+/// (`XSCAN` lines), and — independently of the model — a client's FULL iteration (cursor 0, follow the
+/// cursor until 0) must return exactly the live keys matching the pattern (`Props/C01Scan.lean`).
+/// COUNT 0 / COUNT -1 (what the parsers let through) run first: known finding
+/// `C01:scan-count-nonpositive-accepted`.
+pub fn scan_pass(out: &mut Out, rng: &mut Rng, rounds: u64) {
+    use redis_sim::redis::{RespValue};
+    fn scan(s: &mut Sess, cursor: u64, pattern: &Option<String>, count: Option<usize>) -> Option<(u64, Vec<Vec<u8>>)> {
+        let cmd = Command::Scan { cursor, pattern: pattern.clone(), count };
+        let ex = &mut s.ex;
+        let r = std::panic::catch_unwind(std::panic::AssertUnwindSafe(|| ex.execute(&cmd))).ok()?;
+        match r {
+            RespValue::Array(Some(v)) if v.len() == 2 => {
+                let next = match &v[0] { RespValue::BulkString(Some(b)) => String::from_utf8_lossy(b).parse::<u64>().ok()?, _ => return None };
+                let keys = match &v[1] { RespValue::Array(Some(ks)) => ks.iter().filter_map(|k| match k { RespValue::BulkString(Some(b)) => Some(b.clone()), _ => None }).collect(), _ => return None };
+                Some((next, keys))
+            }
+            _ => None,
+        }
+    }
+    fn line(out: &mut Out, s: &mut Sess, cursor: u64, pattern: &Option<String>, count: Option<usize>) -> Option<(u64, Vec<Vec<u8>>)> {
+        let r = scan(s, cursor, pattern, count);
+        let op = format!("{} XSCAN {} {} {}", s.now, cursor,
+            pattern.as_ref().map(|p| crate::enc::hex(p.as_bytes())).unwrap_or_else(|| "-".into()),
+            count.map(|c| c.to_string()).unwrap_or_else(|| "-".into()));
+        let ans = match &r {
+            None => "crash".to_string(),
+            Some((next, keys)) => {
+                let mut t = format!("{} {}", next, keys.len());
+                for k in keys { t.push(' '); t.push_str(&crate::enc::hex(k)); }
+                t
+            }
+        };
+        out.op(op, ans);
+        out.count("scan:call");
+        r
+    }
+    let finding = |out: &mut Out, what: &str, seq: &Vec<String>| {
+        out.violation("C01:scan-count-nonpositive-accepted", what, serde_json::json!({"sequence": seq}));
+    };
+    // the witnesses, first (must_reproduce)
+    {
+        let mut s = reset(out, BASE_MS);
+        let mut seq = vec![];
+        for key in ["a", "b", "c"] {
+            let c = Command::set(k(key), s_(key));
+            seq.push(format!("{:?}", c));
+            do_step(out, &mut s, &c, "C01", &seq);
+        }
+        // COUNT 0 as both parsers build it
+        let frame = |args: &[&str]| redis_sim::redis::RespValue::Array(Some(args.iter().map(|a| redis_sim::redis::RespValue::BulkString(Some(a.as_bytes().to_vec()))).collect()));
+        for (txt, args) in [("SCAN 0 COUNT 0", vec!["SCAN", "0", "COUNT", "0"]), ("SCAN 0 COUNT -1", vec!["SCAN", "0", "COUNT", "-1"])] {
+            match Command::from_resp(&frame(&args)) {
+                Ok(Command::Scan { cursor, pattern, count }) => {
+                    seq.push(format!("{} (parsed: count = {:?})", txt, count));
+                    let r = line(out, &mut s, cursor, &pattern, count);
+                    match r {
+                        None => finding(out, &format!("{}: the parser accepts the count (Redis: syntax error), `count + 1` overflows in execute_scan: panic in an overflow-checked build (the release profile wraps to take(0): empty page, cursor 0)", txt), &seq),
+                        Some((next, keys)) if keys.is_empty() && next == 0 => finding(out, &format!("{}: accepted (Redis: syntax error) and answered cursor 0 with an empty page although 3 keys exist: the client's iteration ends having seen nothing", txt), &seq),
+                        Some(other) => out.violation("C01:scan:unexpected-answer-for-nonpositive-count", &format!("{} answered {:?}", txt, other), serde_json::json!({"sequence": seq})),
+                    }
+                }
+                Ok(other) => out.violation("C01:scan:parse", &format!("{} parsed as {:?}", txt, other), serde_json::json!({})),
+                Err(_) => out.count("scan:nonpositive-count-refused-by-parser"),
+            }
+        }
+        out.count("corpus:scan-count-nonpositive");
+    }
+    for _ in 0..rounds {
+        let mut s = reset(out, BASE_MS + rng.below(1000));
+        let mut seq: Vec<String> = vec![];
+        let nkeys = rng.below(14);
+        let names = ["a", "b", "c", "kk", "é", "ab", "abc", "b1", "b2", "zz", "a*", "k[1]", "x", "yy"];
+        for i in 0..nkeys {
+            let key = names[(rng.below(names.len() as u64)) as usize];
+            let c = match rng.below(4) {
+                0 => set_px(key, "v", 1 + rng.below(50) as i64),
+                1 => Command::RPush(k(key), vec![s_("e")]),
+                _ => Command::set(k(key), s_(&format!("v{}", i))),
+            };
+            seq.push(format!("{:?}", c));
+            do_step(out, &mut s, &c, "C01", &seq);
+        }
+        // let some keys expire without eviction
+        if rng.chance(1, 2) {
+            let t = s.now + rng.below(60);
+            s.set_now(t, rng.chance(1, 2));
+            let c = Command::Exists(vec![k("a")]);
+            seq.push(format!("t={} {:?}", t, c));
+            do_step(out, &mut s, &c, "C01", &seq);
+        }
+        let pattern = match rng.below(6) { 0 => Some("a*".to_string()), 1 => Some("?".to_string()), 2 => Some("[a-c]*".to_string()), 3 => Some(long_class_pattern(rng)), _ => None };
+        let count = match rng.below(8) { 0 => None, 1 => Some(1usize), 2 => Some(2), 3 => Some(3), 4 => Some(13), 5 => Some(14), 6 => Some(usize::MAX - 1), _ => Some(1 + rng.below(20) as usize) };
+        // expected: the live keys matching the pattern, bytewise sorted
+        let mut expect: Vec<Vec<u8>> = match s.ex.execute(&Command::Keys(pattern.clone().unwrap_or_else(|| "*".into()))) {
+            redis_sim::redis::RespValue::Array(Some(v)) => v.iter().filter_map(|x| match x { redis_sim::redis::RespValue::BulkString(Some(b)) => Some(b.clone()), _ => None }).collect(),
+            _ => vec![],
+        };
+        expect.sort();
+        let mut got: Vec<Vec<u8>> = vec![];
+        let mut cursor = 0u64;
+        let mut calls = 0;
+        let mut ok = true;
+        loop {
+            calls += 1;
+            seq.push(format!("SCAN {} MATCH {:?} COUNT {:?}", cursor, pattern, count));
+            match line(out, &mut s, cursor, &pattern, count) {
+                None => { ok = false; out.violation("C01:scan:crash", "execute_scan panicked for a positive count", serde_json::json!({"sequence": seq})); break; }
+                Some((next, keys)) => {
+                    got.extend(keys);
+                    if next == 0 { break; }
+                    cursor = next;
+                }
+            }
+            if calls > 40 { ok = false; out.violation("C01:scan:iteration-does-not-terminate", "40 calls and the cursor is still not 0", serde_json::json!({"sequence": seq})); break; }
+        }
+        if ok && got != expect {
+            out.violation("C01:scan:full-iteration-incomplete", &format!("a full SCAN iteration returned {:?}, the live matching keys are {:?}", got.iter().map(|x| String::from_utf8_lossy(x).to_string()).collect::<Vec<_>>(), expect.iter().map(|x| String::from_utf8_lossy(x).to_string()).collect::<Vec<_>>()), serde_json::json!({"sequence": seq}));
+        }
+        out.count(&format!("scan:iteration:calls:{}", if calls == 1 { "1" } else if calls <= 4 { "2-4" } else { "5+" }));
+        out.case(&seq.join("\n"), expect.len() >= 2);
+    }
+}
+
+fn s_(x: &str) -> SDS {
+    SDS::from_str(x)
+}
+
 pub fn run(a: &Args) {
     let mut out = Out::new(&a.out);
     let mut rng = Rng::new(a.seed);
     corpus(&mut out, "C01");
     epoch_corpus(&mut out, "C01");
+    let mut srng = Rng::new(a.seed ^ 0x5CA9);
+    scan_pass(&mut out, &mut srng, (a.n / 10).clamp(30, 3000));
     // the data structures behind the commands, driven directly (`DS …` lines); its own stream, so
     // that the command sequences below are the same as without it
     let mut drng = Rng::new(a.seed ^ 0xD5);
